@@ -149,7 +149,7 @@ func mspecsC02(tier string) []*mc.MSpec {
 	}
 	return []*mc.MSpec{{
 		Name: "gc", Scenario: sc,
-		MaxDepth: map[string]int{"quick": 8, "thorough": 12},
+		MaxDepth: map[string]int{"quick": 11, "thorough": 13},
 		Alphabet: func(w *mc.World) []mc.MAct {
 			c := w.Conns[0]
 			if v := versionFirst(c, 0); v != nil {
@@ -213,7 +213,13 @@ func bump(w *mc.World, key string) { w.Data[key] = fmt.Sprint(counter(w, key) + 
 // action of its own. Judged by the access oracles (C04 read gating, C05 call
 // gating and token currency, C06 re-check and no event before the verdict)
 // on every transition and in the drain probe of every state.
-func mspecsAccess(tier string) []*mc.MSpec {
+func mspecsAccess(tier string) []*mc.MSpec { return mspecsAccessDepth(tier, 8) }
+
+// mspecsAccess9 is the same space one level deeper in the quick tier (used by
+// C06, whose defect 689149c sat at depth 9).
+func mspecsAccess9(tier string) []*mc.MSpec { return mspecsAccessDepth(tier, 9) }
+
+func mspecsAccessDepth(tier string, quickDepth int) []*mc.MSpec {
 	sc := &mc.Scenario{
 		Name: "M/access", NoEvict: true, Init: basicInit,
 		Conns:    []mc.ConnSpec{{}},
@@ -227,7 +233,7 @@ func mspecsAccess(tier string) []*mc.MSpec {
 	}
 	return []*mc.MSpec{{
 		Name: "access", Scenario: sc,
-		MaxDepth: map[string]int{"quick": 8, "thorough": 11},
+		MaxDepth: map[string]int{"quick": quickDepth, "thorough": 11},
 		Alphabet: func(w *mc.World) []mc.MAct {
 			c := w.Conns[0]
 			if v := versionFirst(c, 0); v != nil {
